@@ -276,8 +276,18 @@ def _gen_median(ctx, rng, dtype=None):
         idx = [nl + 6] + idx                    # leading absent label
     if big is not None and rng.rand() < 0.7:
         idx = idx + [big]
+    coded, nz = False, []
+    if dtype in _FW and rng.rand() < 0.3:
+        # "selection" class: arbitrary floats of the dtype (extremes, subnormals, +-inf, +-0.0) as order-preserving
+        # codes; every requested label gets an odd pixel count, so its median is a copy of a pixel (no arithmetic)
+        coded, q = True, 0
+        h, nz = _gen_vals(rng, dtype, n)
+        spare = nl + 9
+        for l in set(idx):
+            if l != spare and labels.count(l) % 2 == 0 and labels.count(l) > 0:
+                labels[labels.index(l)] = spare
     shape = _shape_for(rng, n, allow0d=False)
-    return {"fn": "median", "dtype": dtype, "h": [int(v) for v in h], "q": q, "ldtype": ldtype, "labels": labels,
+    return {"fn": "median", "dtype": dtype, "h": [int(v) for v in h], "q": q, "coded": coded, "nz": nz, "ldtype": ldtype, "labels": labels,
             "indices": [int(x) for x in idx], "shape": shape, "layout": str(rng.choice(LAYOUTS)),
             "llayout": str(rng.choice(LAYOUTS)),
             "xdtype": (str(rng.choice([d for d in INT_DTYPES if max(idx + [0]) <= _LABMAX[d]])) if rng.rand() < 0.4 else None)}
@@ -457,8 +467,10 @@ class _NPProxy(object):
 
 
 def _median_image(case):
-    h = np.array(case["h"], dtype=np.int64)
     dt = case["dtype"]
+    if case.get("coded"):
+        return _decode(dt, case["h"], case.get("nz", []))
+    h = np.array(case["h"], dtype=np.int64)
     if dt in _FW:
         x = np.ldexp(h.astype(np.float64), case["q"])
         a = x.astype(dt)
@@ -500,6 +512,11 @@ def impl(case):
         for x in m.ravel().tolist():
             if x != x:
                 res.append([])
+            elif case.get("coded"):
+                back = np.array([x], dtype=np.float64).astype(case["dtype"])
+                if float(back[0]) != x:
+                    return {"nonint": x}
+                res.append([2 * _encode(back)[0]])
             else:
                 y = float(np.ldexp(np.float64(x), 1 - case["q"]))
                 if y != int(y):
@@ -808,7 +825,7 @@ def shrink_candidates(case):
             yield d
     elif fn == "median":
         n = len(case["labels"])
-        if n > 1:
+        if n > 1 and not case.get("coded"):
             for k in range(n):
                 d = dict(c); d["shape"] = None
                 d["labels"] = case["labels"][:k] + case["labels"][k + 1:]
@@ -818,7 +835,7 @@ def shrink_candidates(case):
             if b:
                 d = dict(c); d["indices"] = b
                 yield d
-        if any(case["h"]):
+        if any(case["h"]) and not case.get("coded"):
             d = dict(c); d["h"] = [0] * n
             yield d
     elif fn == "mode":
